@@ -176,6 +176,8 @@ inductive RunPc where
   | acquiring (live : Bool)   -- inside sem.Acquire(ctx,1); live = ctx was not done at entry
   | waiting
   | drained
+  | inGc                      -- between TryLock(ctx, "garbage-collection") and its done()
+  | gcOver
   | returned
 deriving DecidableEq, Repr
 
@@ -215,6 +217,9 @@ structure Env where
   batch : Nat → Nat             -- run ↦ batch size
   toRun : Nat → List Nat        -- run ↦ configured updater instances (see `plan`)
   stubSets : Nat → Nat          -- run ↦ number of RecordUpdaterSetStatus calls
+  gc : Nat → Bool               -- run ↦ updateRetention != 0
+  gcInst : Nat                  -- the program-counter slot (r, gcInst) records the GC section of run r;
+                                -- `(upd gcInst).name` is the key "garbage-collection"
 
 def init (hist : List Op) : State :=
   { locks := Locks.init, ops := hist, calls := [], status := [],
@@ -244,6 +249,9 @@ inductive Ev where
   | store (r i : Nat)
   | status (r i : Nat)
   | done (r i : Nat)
+  | gcTry (r : Nat)
+  | gc (r : Nat)
+  | gcDone (r : Nat)
 deriving DecidableEq, Repr
 
 inductive Out where
@@ -271,6 +279,13 @@ def finish (s : State) (r i : Nat) (g : Option Nat) (res : Option Res) : State :
     | none => s
   (s1.setRun r { rs with inflight := rs.inflight - 1,
                          errs := if failed then i :: rs.errs else rs.errs }).setPc r i (.finished res)
+
+/-- The GC section ends: `done()` of the garbage-collection lock. -/
+def gcFinish (env : Env) (s : State) (r : Nat) (g : Option Nat) : State :=
+  let s1 : State := match g with
+    | some g => { s with locks := (Locks.step s.locks (.release g)).1 }
+    | none => s
+  (s1.setRun r { s.run r with pc := .gcOver }).setPc r env.gcInst (.finished none)
 
 def step (env : Env) (s : State) : Ev → State × Out
   | .begin r =>
@@ -309,10 +324,47 @@ def step (env : Env) (s : State) : Ev → State × Out
     | _ => (s, .bad)
   | .ret r =>
     match (s.run r).pc with
-    | .drained => (s.setRun r { s.run r with pc := .returned }, .ret (s.run r).errs)
+    | .drained =>
+      if env.gc r then (s, .bad)
+      else (s.setRun r { s.run r with pc := .returned }, .ret (s.run r).errs)
+    | .gcOver => (s.setRun r { s.run r with pc := .returned }, .ret (s.run r).errs)
+    | _ => (s, .bad)
+  | .gcTry r =>
+    -- `if m.updateRetention != 0 { ctx, done := m.locks.TryLock(ctx, "garbage-collection")`
+    match (s.run r).pc with
+    | .drained =>
+      if env.gc r = true ∧ s.pc r env.gcInst = .idle then
+        let s1 := s.setRun r { s.run r with pc := .inGc }
+        if (env.upd env.gcInst).name ∈ s.locks.held then
+          (s1.setPc r env.gcInst (.skipped none), .lock false false)
+        else
+          let l := (Locks.acquire s.locks (env.upd env.gcInst).name r).1
+          let g := s.locks.issued
+          if dead s r then
+            ({ s1 with locks := l }.setPc r env.gcInst (.skipped (some g)), .lock true false)
+          else
+            ({ s1 with locks := l }.setPc r env.gcInst (.locked g), .lock true true)
+      else (s, .bad)
+    | _ => (s, .bad)
+  | .gc r =>
+    -- `m.store.GC(ctx, m.updateRetention)`, only with the lock and a live context
+    match (s.run r).pc with
+    | .inGc =>
+      match s.pc r env.gcInst with
+      | .locked g => (s.setPc r env.gcInst (.skipped (some g)), .ok)
+      | _ => (s, .bad)
+    | _ => (s, .bad)
+  | .gcDone r =>
+    match (s.run r).pc with
+    | .inGc =>
+      match s.pc r env.gcInst with
+      | .skipped g => (gcFinish env s r g, .done false)
+      | .locked g => if dead s r then (gcFinish env s r (some g), .done false) else (s, .bad)
+      | _ => (s, .bad)
     | _ => (s, .bad)
   | .cancel r => ({ s with locks := (Locks.step s.locks (.cancelParent r)).1 }, .ok)
   | .tryLock r i =>
+    if i = env.gcInst then (s, .bad) else
     match s.pc r i with
     | .idle =>
       if i ∈ env.toRun r ∧ (s.run r).tried.length < (s.run r).launchedN then
@@ -330,6 +382,7 @@ def step (env : Env) (s : State) : Ev → State × Out
       else (s, .bad)
     | _ => (s, .bad)
   | .getOps r i =>
+    if i = env.gcInst then (s, .bad) else
     match s.pc r i with
     | .locked g =>
       let u := env.upd i
@@ -339,6 +392,7 @@ def step (env : Env) (s : State) : Ev → State × Out
         (s.setPc r i (.finishing g 0 .getErr), .getOps u.kind.uo u.name false)
     | _ => (s, .bad)
   | .fetch r i =>
+    if i = env.gcInst then (s, .bad) else
     match s.pc r i with
     | .gotOps g prev =>
       let u := env.upd i
@@ -350,6 +404,7 @@ def step (env : Env) (s : State) : Ev → State × Out
       | .err => (s.setPc r i (.finishing g o.2 .fetchErr), .fetch enr prev .err o.2)
     | _ => (s, .bad)
   | .parse r i =>
+    if i = env.gcInst then (s, .bad) else
     match s.pc r i with
     | .fetched g prev fp =>
       let u := env.upd i
@@ -358,6 +413,7 @@ def step (env : Env) (s : State) : Ev → State × Out
       | none => (s.setPc r i (.finishing g fp .parseErr), .parse u.kind false)
     | _ => (s, .bad)
   | .store r i =>
+    if i = env.gcInst then (s, .bad) else
     match s.pc r i with
     | .parsed g _ fp p =>
       let u := env.upd i
@@ -369,6 +425,7 @@ def step (env : Env) (s : State) : Ev → State × Out
         (s.setPc r i (.finishing g fp .storeErr), .store c false)
     | _ => (s, .bad)
   | .status r i =>
+    if i = env.gcInst then (s, .bad) else
     match s.pc r i with
     | .finishing g fp res =>
       let u := env.upd i
@@ -376,6 +433,7 @@ def step (env : Env) (s : State) : Ev → State × Out
         .status u.name fp res.failed)
     | _ => (s, .bad)
   | .done r i =>
+    if i = env.gcInst then (s, .bad) else
     match s.pc r i with
     | .skipped g => (finish s r i g none, .done false)
     | .locked g =>
